@@ -368,3 +368,133 @@ Section ContiguousCodec.
         split; [|exact Hr]. cbn [enc_all]. rewrite !lenN_app. lia.
   Qed.
 End ContiguousCodec.
+
+(* ---- SEEKTABLE *)
+Definition ty_seekpoint (sp : seekpoint) : Prop :=
+  match sp with
+  | SPDefined so bo fs => so < 18446744073709551616 /\ bo < 18446744073709551616 /\ fs < 65536
+  | SPPlaceholder => True
+  end.
+Definition good_seekpoint (sp : seekpoint) : Prop :=
+  ty_seekpoint sp /\ match sp with SPDefined so _ _ => so <> U64_MAX | SPPlaceholder => True end.
+Definition ty_seektable (l : list seekpoint) : Prop :=
+  Forall ty_seekpoint l /\ is_contiguous seekpoint_valid_first seekpoint_is_next l = true /\ lenN l <= SEEK_MAX_POINTS.
+
+Lemma lenN_write_seekpoint x : lenN (write_seekpoint x) = 18.
+Proof. destruct x; cbn [write_seekpoint]; rewrite !lenN_app, !lenN_be_bytes; reflexivity. Qed.
+
+Lemma read_seekpoint_enc x rest : good_seekpoint x -> read_seekpoint (write_seekpoint x ++ rest) = Ok (x, rest).
+Proof.
+  intros [T G]. unfold read_seekpoint. destruct x as [so bo fs|]; cbn [write_seekpoint ty_seekpoint] in *.
+  - destruct T as (T1 & T2 & T3). rewrite <- !app_assoc.
+    rewrite (pbind_eq (read_be 8) _ _ so _) by (apply read_be8_app, T1).
+    destruct (N.eqb_spec so U64_MAX) as [Hx|_]; [contradiction|].
+    rewrite (pbind_eq (read_be 8) _ _ bo _) by (apply read_be8_app, T2).
+    rewrite (pbind_eq (read_be 2) _ _ fs _) by (apply read_be2_app, T3). reflexivity.
+  - rewrite <- !app_assoc.
+    rewrite (pbind_eq (read_be 8) _ _ U64_MAX _) by (apply read_be8_app; reflexivity).
+    change (U64_MAX =? U64_MAX) with true. cbv iota.
+    rewrite (pbind_eq (read_be 8) _ _ 0 _) by (apply read_be8_app; reflexivity).
+    rewrite (pbind_eq (read_be 2) _ _ 0 _) by (apply read_be2_app; reflexivity). reflexivity.
+Qed.
+
+Lemma read_seekpoint_inv s x r : Forall byte s -> read_seekpoint s = Ok (x, r) ->
+  good_seekpoint x /\ exists c, s = c ++ r /\ lenN c = lenN (write_seekpoint x).
+Proof.
+  intros Hs H. unfold read_seekpoint in H. inv_bind H.
+  apply (read_be_ok 8) in E; [|exact Hs]. destruct E as [-> B1]. apply Forall_app_r in Hs.
+  change (256 ^ N.of_nat 8) with 18446744073709551616 in B1.
+  destruct (N.eqb_spec a U64_MAX) as [->|Hne].
+  - inv_bind H. apply (read_be_ok 8) in E; [|exact Hs]. destruct E as [-> B2]. apply Forall_app_r in Hs.
+    inv_bind H. apply (read_be_ok 2) in E; [|exact Hs]. destruct E as [-> B3].
+    unfold pret in H. apply Ok_inj in H. injection H as <- <-.
+    split; [split; exact I|]. exists (be_bytes 8 U64_MAX ++ be_bytes 8 a ++ be_bytes 2 a0).
+    rewrite <- !app_assoc. split; [reflexivity|]. rewrite lenN_write_seekpoint, !lenN_app, !lenN_be_bytes. reflexivity.
+  - inv_bind H. apply (read_be_ok 8) in E; [|exact Hs]. destruct E as [-> B2]. apply Forall_app_r in Hs.
+    inv_bind H. apply (read_be_ok 2) in E; [|exact Hs]. destruct E as [-> B3].
+    change (256 ^ N.of_nat 8) with 18446744073709551616 in B2. change (256 ^ N.of_nat 2) with 65536 in B3.
+    unfold pret in H. apply Ok_inj in H. injection H as <- <-.
+    split; [split; [cbn; auto|exact Hne]|]. exists (be_bytes 8 a ++ be_bytes 8 a0 ++ be_bytes 2 a1).
+    rewrite <- !app_assoc. split; [reflexivity|]. rewrite lenN_write_seekpoint, !lenN_app, !lenN_be_bytes. reflexivity.
+Qed.
+
+Lemma lenN_enc_all_seek l : lenN (enc_all write_seekpoint l) = 18 * lenN l.
+Proof.
+  induction l as [|x l IH]; cbn [enc_all lenN]; [reflexivity|].
+  rewrite lenN_app, lenN_write_seekpoint, IH. lia.
+Qed.
+
+Lemma write_seekpoints_ok : forall l lo bs, write_seekpoints lo l = Ok bs ->
+  bs = enc_all write_seekpoint l /\ Forall (fun sp => match sp with SPDefined so _ _ => so <> U64_MAX | _ => True end) l.
+Proof.
+  induction l as [|x l IH]; intros lo bs H; cbn [write_seekpoints] in H.
+  - apply Ok_inj in H. subst. split; [reflexivity|constructor].
+  - destruct x as [so bo fs|].
+    + destruct (N.eqb_spec so U64_MAX) as [|Hne]; [discriminate|].
+      assert (exists rest, write_seekpoints (Some so) l = Ok rest /\ bs = write_seekpoint (SPDefined so bo fs) ++ rest) as (rest & R & ->).
+      { destruct lo as [lo|]; [destruct (lo <? so); [|discriminate]|];
+        destruct (write_seekpoints (Some so) l) as [rest| |]; cbn [bind] in H; try discriminate;
+        apply Ok_inj in H; eauto. }
+      apply IH in R. destruct R as [-> F]. split; [reflexivity|constructor; assumption].
+    + destruct (write_seekpoints lo l) as [rest| |] eqn:R; cbn [bind] in H; try discriminate.
+      apply Ok_inj in H. subst. apply IH in R. destruct R as [-> F]. split; [reflexivity|constructor; auto].
+Qed.
+
+Lemma seektable_write_read l bs r : ty_seektable l -> write_seektable l = Ok bs ->
+  read_seektable (18 * lenN l) (bs ++ r) = Ok (l, r).
+Proof.
+  intros (T & C & M) W. unfold write_seektable in W. apply write_seekpoints_ok in W. destruct W as [-> F].
+  unfold read_seektable.
+  assert (E1 : (18 * lenN l) mod 18 = 0) by (rewrite N.mul_comm; apply N.mod_mul; discriminate).
+  assert (E2 : 18 * lenN l / 18 = lenN l) by (rewrite N.mul_comm; apply N.div_mul; discriminate).
+  rewrite E1, E2. change (0 =? 0) with true. cbv iota.
+  rewrite (try_collect_enc seekpoint_valid_first seekpoint_is_next SEEK_MAX_POINTS read_seekpoint write_seekpoint good_seekpoint read_seekpoint_enc).
+  - reflexivity.
+  - rewrite Forall_forall in *. intros x Hx. split; [apply T, Hx|apply F, Hx].
+  - rewrite app_length. assert (H := lenN_enc_all_seek l). rewrite !lenN_length in H. lia.
+  - lia.
+  - exact C.
+Qed.
+
+Lemma seek_contig_writes : forall l prev lo,
+  contiguous_from seekpoint_is_next prev l = true ->
+  Forall good_seekpoint l ->
+  match prev with SPDefined po _ _ => lo = Some po | SPPlaceholder => True end ->
+  write_seekpoints lo l = Ok (enc_all write_seekpoint l).
+Proof.
+  induction l as [|x l IH]; intros prev lo C G I; [reflexivity|].
+  inversion G as [|? ? [Tx Gx] Gl]; subst. cbn [contiguous_from] in C. cbn [write_seekpoints enc_all].
+  destruct x as [so bo fs|].
+  - destruct (N.eqb_spec so U64_MAX) as [|_]; [contradiction|].
+    destruct prev as [po pb pf|]; cbn [seekpoint_is_next] in C; [|discriminate].
+    destruct (N.ltb_spec po so) as [Hlt|]; [|discriminate]. subst lo.
+    destruct (N.ltb_spec po so) as [_|]; [|lia].
+    rewrite (IH (SPDefined so bo fs) (Some so)); [reflexivity|exact C|exact Gl|reflexivity].
+  - assert (C' : contiguous_from seekpoint_is_next SPPlaceholder l = true).
+    { destruct prev; cbn [seekpoint_is_next] in C; exact C. }
+    rewrite (IH SPPlaceholder lo); [reflexivity|exact C'|exact Gl|exact I].
+Qed.
+
+Lemma seektable_read_inv size s l r : Forall byte s -> read_seektable size s = Ok (l, r) ->
+  ty_seektable l /\ size = 18 * lenN l /\ write_seektable l = Ok (enc_all write_seekpoint l) /\
+  lenN s = lenN (enc_all write_seekpoint l) + lenN r /\ Forall byte r.
+Proof.
+  intros Hs H. unfold read_seektable in H.
+  destruct (N.eqb_spec (size mod 18) 0) as [Hm|]; [|discriminate].
+  apply (try_collect_inv seekpoint_valid_first seekpoint_is_next SEEK_MAX_POINTS read_seekpoint write_seekpoint good_seekpoint read_seekpoint_inv) in H; [|exact Hs].
+  destruct H as (l' & E & Ll & G & C & M & Len & Hr). cbn [rev app] in E. subst l'.
+  assert (Hsz : size = 18 * lenN l).
+  { rewrite Ll. pose proof (N.div_mod size 18). lia. }
+  split; [|split; [exact Hsz|split; [|split; assumption]]].
+  - split; [|split].
+    + rewrite Forall_forall in *. intros x Hx. apply G, Hx.
+    + exact C.
+    + destruct l as [|x l']; [cbn; lia|]. rewrite Ll. assert (0 + size / 18 <= SEEK_MAX_POINTS) by (apply M; discriminate). lia.
+  - unfold write_seektable. unfold chain_ok in C. destruct l as [|x l']; [reflexivity|].
+    cbn [is_contiguous] in C. apply andb_prop in C. destruct C as [_ C].
+    inversion G as [|? ? [Tx Gx] Gl]; subst. cbn [write_seekpoints enc_all].
+    destruct x as [so bo fs|].
+    + destruct (N.eqb_spec so U64_MAX) as [|_]; [contradiction|].
+      rewrite (seek_contig_writes l' (SPDefined so bo fs) (Some so)); [reflexivity|exact C|exact Gl|reflexivity].
+    + rewrite (seek_contig_writes l' SPPlaceholder None); [reflexivity|exact C|exact Gl|exact I].
+Qed.
